@@ -37,9 +37,10 @@ enum Item {
     JournalTwoDesc, // active journal with two extents listed in descending order, both holding complete records
     MaxKey,      // record with the longest recoverable key
     Gap,         // a never-used block
+    Grown,       // the file was grown after creation: the header's device size ends here, what follows lies beyond it
 }
 
-const ITEMS: [Item; 13] = [
+const ITEMS: [Item; 14] = [
     Item::Rec1,
     Item::Rec2,
     Item::OlderDup,
@@ -53,6 +54,7 @@ const ITEMS: [Item; 13] = [
     Item::JournalTwoDesc,
     Item::MaxKey,
     Item::Gap,
+    Item::Grown,
 ];
 
 fn synth(version: u32, items: &[Item]) -> Vec<u8> {
@@ -69,6 +71,7 @@ fn synth(version: u32, items: &[Item]) -> Vec<u8> {
         (start, (bytes.len() / BLOCK) as u64)
     };
     let mut pending_journal = false;
+    let mut header_blocks: Option<u64> = None;
     for it in items {
         let before = at;
         match it {
@@ -124,6 +127,12 @@ fn synth(version: u32, items: &[Item]) -> Vec<u8> {
                 put(&mut img, &mut at, &vec![b'M'; maxk], b"m".to_vec(), 1500, 0);
             }
             Item::Gap => at += 1,
+            Item::Grown => {
+                if header_blocks.is_none() {
+                    header_blocks = Some(at.max(17));
+                }
+                continue;
+            }
         }
         if pending_journal && at > before {
             journal.push((before, at - before));
@@ -132,6 +141,16 @@ fn synth(version: u32, items: &[Item]) -> Vec<u8> {
     }
     if !journal.is_empty() {
         l::put(&mut img, 1, &l::encode_journal(5, &journal));
+    }
+    if let Some(blocks) = header_blocks {
+        // both metadata copies still record the size the device was created with
+        for blk in [l::META_PRIMARY, l::META_BACKUP] {
+            if let Some(mut meta) = l::block(&img, blk).and_then(l::decode_meta) {
+                meta.device_size = blocks * BLOCK as u64;
+                let enc = l::encode_meta(&meta);
+                l::put(&mut img, blk, &enc);
+            }
+        }
     }
     img
 }
@@ -514,7 +533,11 @@ pub fn check(tier: &str, budget_s: f64, report: &mut Report) {
         }
         let (name, img) = &images[i];
         let dir = root.join(format!("t{t}"));
+        let t0 = std::time::Instant::now();
         let o = run_case(&dir, img, allow, dest_exists, None);
+        if t0.elapsed().as_millis() > 100 && std::env::var_os("VERIF_C15_SLOW").is_some() {
+            eprintln!("slow case {:?}: {name} allow={allow} dest_exists={dest_exists}", t0.elapsed());
+        }
         evals.fetch_add(1, Ordering::Relaxed);
         done.fetch_add(1, Ordering::Relaxed);
         if o.migrated_ok {
@@ -579,4 +602,17 @@ pub fn check(tier: &str, budget_s: f64, report: &mut Report) {
     report.sample(json!({"image": images[images.len() / 3].0, "cases": ["opt-in off", "opt-in on", "destination exists"]}));
     report.sample(json!({"image": images[images.len() - 1].0}));
     report.assumptions.push("multi-batch paths (256-record scan batches, 4096-record flush threshold) are not enumerated".into());
+}
+
+/// Debug aid: time one synthesised case.
+pub fn debug_one(version: u32, grown: bool) -> i32 {
+    let items: Vec<Item> = if grown { vec![Item::Rec1, Item::Grown, Item::Rec2] } else { vec![Item::Rec1, Item::Rec2] };
+    let img = synth(version, &items);
+    let dir = scratch_root().join("c15-debug");
+    for _ in 0..3 {
+        let t = std::time::Instant::now();
+        let o = run_case(&dir, &img, false, false, None);
+        println!("v{version} grown={grown}: {:?} migrated_ok={} problems={:?}", t.elapsed(), o.migrated_ok, o.problems);
+    }
+    0
 }
